@@ -6,6 +6,7 @@
 #include "common.h"
 #include "gen.h"
 #include "judge.h"
+#include "polyglot_spec.h"
 
 #include <iostream>
 
@@ -173,7 +174,6 @@ std::string random_go(const Board& b, int& depth_limit, std::vector<orc::Move>& 
 void preamble(Session& s)
 {
     s.send("uci");
-    s.send("isready");
     s.sync();
 }
 
@@ -242,7 +242,6 @@ Session make(const std::string& kind, long idx)
             if (RNG->below(4) == 0) s.send("setoption name Polyglot Book value");  // cleared
             if (RNG->below(5) == 0) s.send("setoption name Polyglot Sample value " + std::string(RNG->below(2) ? "best" : "random"));
             if (RNG->below(6) == 0) s.send("setoption name Logfile value");
-            s.send("isready");
             s.sync();
             Board start = RNG->below(3) ? Board::startpos() : (RNG->below(2) ? Board::fen(gen::CORPUS[RNG->below(gen::CORPUS_N)]) : gen::synth(*RNG, int(RNG->below(gen::T_COUNT))));
             gen::Policy pol;
@@ -291,6 +290,97 @@ Session make(const std::string& kind, long idx)
         bool infinite = RNG->below(3) != 0;
         s.tag = std::string("stoprace:") + (infinite ? "infinite" : "depth12") + ":delay" + std::to_string(dly);
         s.go(infinite ? "go infinite" : "go depth 12", dly, b, infinite ? 0 : 12, {}, RNG->below(2));
+    }
+    else if (kind == "replay")
+    {
+        // games replayed through `position ... moves ...` / `moves`, the board printed at random points,
+        // perft 1..2 compared with the oracle (UCI path of C01 / C02 / C16)
+        Board start = idx % 3 == 0 ? Board::startpos() : (idx % 3 == 1 ? Board::fen(gen::CORPUS[RNG->below(gen::CORPUS_N)]) : gen::synth(*RNG, int(RNG->below(gen::T_COUNT))));
+        gen::Policy pol;
+        gen::Game g = gen::random_game(*RNG, start, 20 + int(RNG->below(160)), pol, "replay");
+        s.tag = "replay:" + std::to_string(g.moves.size());
+        size_t n = 0;
+        while (true)
+        {
+            Board b = play(g, n);
+            if (idx % 2)
+                s.send(pos_cmd(g, n));
+            else if (n == 0)
+                s.send(pos_cmd(g, 0));
+            s.board(b);
+            if (RNG->below(3) == 0) s.perft(1 + int(RNG->below(2)), b);
+            if (n >= g.moves.size()) break;
+            size_t step = 1 + RNG->below(9);
+            if (!(idx % 2)) s.send("moves " + moves_text(g.moves, n, n + step));
+            n = std::min(g.moves.size(), n + step);
+        }
+    }
+    else if (kind == "book")
+    {
+        Board b = Board::startpos();
+        gen::Policy pol;
+        if (idx % 4 == 1) b = gen::synth(*RNG, gen::T_CASTLE);
+        if (idx % 4 == 2) b = gen::synth(*RNG, gen::T_PROMO);
+        gen::Game g = gen::random_game(*RNG, b, int(RNG->below(12)), pol, "book");
+        Board root = play(g, g.moves.size());
+        std::vector<orc::Move> legal = root.legal();
+        if (legal.empty())
+        {
+            root = Board::startpos();
+            g.moves.clear();
+            g.start_fen = root.fen();
+            legal = root.legal();
+        }
+        std::stable_sort(legal.begin(), legal.end(), [&](const orc::Move& x, const orc::Move& y) {
+            auto pri = [&](const orc::Move& m) { return root.is_castle(m) ? 0 : m.promo ? 1 : 2; };
+            return pri(x) < pri(y);
+        });
+        size_t k = std::min<size_t>(legal.size(), 1 + RNG->below(3));
+        bool best = RNG->below(2);
+        std::vector<int> w(k);
+        int maxw = 0;
+        for (size_t i = 0; i < k; ++i)
+        {
+            w[i] = int(RNG->below(4));
+            maxw = std::max(maxw, w[i]);
+        }
+        if (maxw == 0) w[0] = maxw = 2;
+        uint64_t key = orc::polyglot_key(root);
+        std::string hex;
+        auto be = [&](uint64_t v, int bytes) {
+            static const char* H = "0123456789abcdef";
+            for (int i = bytes - 1; i >= 0; --i)
+            {
+                unsigned c = unsigned((v >> (8 * i)) & 0xFF);
+                hex += H[c >> 4];
+                hex += H[c & 15];
+            }
+        };
+        std::vector<orc::Move> allowed;
+        for (size_t i = 0; i < k; ++i)
+        {
+            const orc::Move& m = legal[i];
+            int to = m.to;
+            if (root.is_castle(m)) to = orc::sq_of(orc::file_of(m.to) == 6 ? 7 : 0, orc::rank_of(m.to));
+            int promo = m.promo ? m.promo - 1 : 0;
+            uint16_t code = uint16_t(orc::file_of(to) | orc::rank_of(to) << 3 | orc::file_of(m.from) << 6 | orc::rank_of(m.from) << 9 | promo << 12);
+            be(key, 8);
+            be(code, 2);
+            be(uint64_t(w[i]), 2);
+            be(0, 4);
+            if (best ? w[i] == maxw : w[i] > 0) allowed.push_back(m);
+        }
+        s.tag = std::string("book:") + (best ? "best" : "random");
+        s.steps.push_back("[\"bookfile\"," + vh::jstr(hex) + "]");
+        s.send("setoption name Polyglot Sample value " + std::string(best ? "best" : "random"));
+        s.send("setoption name Polyglot Book value @BOOK@");
+        s.sync();
+        s.send(pos_cmd(g, g.moves.size()));
+        // `legal` of this go step is the set of answers the book allows
+        std::vector<std::string> lm;
+        for (const orc::Move& m : allowed) lm.push_back(vh::jstr(m.uci()));
+        for (int rep = 0; rep < 3; ++rep)
+            s.steps.push_back("[\"go\"," + vh::jstr("go depth 2") + ",-1," + vh::jstr(root.fen()) + "," + jarr(lm) + ",2,[],0]");
     }
     s.send("quit");
     return s;
